@@ -13,6 +13,7 @@ import (
 
 	"github.com/platinummonkey/go-concurrency-limits/core"
 	"github.com/platinummonkey/go-concurrency-limits/limit"
+	"github.com/platinummonkey/go-concurrency-limits/limiter"
 	ddreg "github.com/platinummonkey/go-concurrency-limits/metric_registry/datadog"
 	gmreg "github.com/platinummonkey/go-concurrency-limits/metric_registry/gometrics"
 	"github.com/platinummonkey/go-concurrency-limits/strategy"
@@ -663,6 +664,89 @@ func c20LifecycleConcurrent(kind string) *mc.Scenario {
 	}
 }
 
+// countingStrategy wraps a real strategy and remembers, per calling thread, the strategy's own
+// in-flight count of the last token it granted.
+type countingStrategy struct {
+	core.Strategy
+	last map[int]int
+}
+
+func (s *countingStrategy) TryAcquire(ctx vctx.Context) (core.StrategyToken, bool) {
+	tok, ok := s.Strategy.TryAcquire(ctx)
+	if ok && tok != nil {
+		s.last[vrt.Self().ID] = tok.InFlightCount()
+	}
+	return tok, ok
+}
+
+// c20InflightAtAdmission: the in-flight value a granted request carries (and which the algorithm and
+// the in-flight metric later receive as the window's maximum) never exceeds the strategy's own
+// in-flight count at that admission — an operation that has given its token back is no longer in
+// flight — and so never exceeds the limit. A holder completes while another caller acquires.
+func c20InflightAtAdmission(kind string, outcome int) *mc.Scenario {
+	return &mc.Scenario{
+		Name:   "C20/inflight-at-admission/" + kind,
+		Params: fmt.Sprintf("limit 1, window pre-filled; holder completes with %s while a caller acquires twice; then the window is closed", outcomeNames[outcome]),
+		Cfg:    vrt.Config{MaxSteps: 6000, TickPerNow: 1_000_000},
+		Body: func(x *mc.Exec) {
+			cs := &countingStrategy{Strategy: newStrategy(kind, 1, nil), last: map[int]int{}}
+			rec := &ScriptLimit{Traj: []int{1}}
+			l, err := limiter.NewDefaultLimiter(rec, 1000, 1000, 1, 10, cs, limit.NoopLimitLogger{}, core.EmptyMetricRegistryInstance)
+			if err != nil {
+				panic(err)
+			}
+			ctx := ctxFor("a")
+			for i := 0; i < 9; i++ {
+				tok, ok := l.Acquire(ctx)
+				if !ok {
+					x.Fail("setup", "prefill refused")
+					return
+				}
+				tok.OnSuccess()
+			}
+			held, ok := l.Acquire(ctx)
+			if !ok {
+				x.Fail("setup", "holder refused")
+				return
+			}
+			check := func(li core.Listener) {
+				if v, ok := mc.FieldInt(li, "currentMaxInFlight"); ok {
+					if own := cs.last[vrt.Self().ID]; int(v) > own {
+						x.Fail(kind+"/inflight-above-strategy-count", "a granted request carries in-flight=%d, the strategy counted %d in flight at that admission", v, own)
+					}
+				} else {
+					x.OracleSkipped++
+				}
+			}
+			th := vrt.GoL("H", func() { complete(held, outcome) })
+			tc := vrt.GoL("C", func() {
+				for k := 0; k < 2; k++ {
+					if li, ok := l.Acquire(ctx); ok {
+						check(li)
+						li.OnSuccess()
+					}
+				}
+			})
+			vrt.Join(th, tc)
+			for i := 0; i < 12; i++ {
+				if tok, ok := l.Acquire(ctx); ok {
+					tok.OnSuccess()
+				}
+			}
+			x.Observe("updates=%v", rec.Samples)
+			x.MarkConflict()
+			if len(rec.Samples) == 0 {
+				x.Fail("setup", "the window never closed")
+			}
+			for _, smp := range rec.Samples {
+				if smp.InFlight > 1 {
+					x.Fail(kind+"/inflight-above-limit", "the algorithm was told in-flight=%d although the limit was 1 throughout (updates %v)", smp.InFlight, rec.Samples)
+				}
+			}
+		},
+	}
+}
+
 func runC20(c *Ctx) {
 	for _, k := range []string{"simple", "precise"} {
 		c.runBFS(c20StratModel(k), mc.BFSOptions{MaxDepth: 12, MaxStates: 100000})
@@ -676,6 +760,11 @@ func runC20(c *Ctx) {
 	}
 	for _, ct := range qCtors()[:3] {
 		c.Explore(qdScenario(qdCase{prop: "C20", ctor: ct, limit: 1, maxBacklog: 2, timeout: 50 * time.Millisecond, evict: true, maxArrive: 4, depth: c.Pick(5, 6)}), mc.Options{PreemptBound: 0})
+	}
+	for _, kind := range []string{"simple", "precise", "lookup"} {
+		for o := 0; o < 3; o++ {
+			c.Explore(c20InflightAtAdmission(kind, o), mc.Options{PreemptBound: c.Pick(2, 3)})
+		}
 	}
 	c20Bundled(c)
 	c20Names(c)
